@@ -1813,7 +1813,7 @@ func (h *history) filterCheck() {
 		return
 	}
 	sum, avg, mn, mx := nums[k].sumBits(vals)
-	if !valEqual(k, Val{B: agg.Sum}, Val{B: sum}) {
+	if !valEqual(k, Val{B: agg.Sum}, Val{B: sum, Arith: true}) {
 		h.violate("aggregate", fmt.Sprintf("%s%s.Sum()=%s, the %d selected values sum to %s", desc, aggCol.Name, show(agg.Sum), len(vals), show(sum)), "")
 		return
 	}
@@ -1821,7 +1821,7 @@ func (h *history) filterCheck() {
 		h.violate("aggregate", fmt.Sprintf("%s%s.Avg()=%v, the %d selected values average %v", desc, aggCol.Name, agg.Avg, len(vals), avg), "")
 		return
 	}
-	if !agg.MinOK || !agg.MaxOK || !valEqual(k, Val{B: agg.Min}, Val{B: mn}) || !valEqual(k, Val{B: agg.Max}, Val{B: mx}) {
+	if !agg.MinOK || !agg.MaxOK || !valEqual(k, Val{B: agg.Min}, Val{B: mn, Arith: true}) || !valEqual(k, Val{B: agg.Max}, Val{B: mx, Arith: true}) {
 		h.violate("aggregate", fmt.Sprintf("%s%s: Min=(%s,%v) Max=(%s,%v), selected values have min %s max %s", desc, aggCol.Name, show(agg.Min), agg.MinOK, show(agg.Max), agg.MaxOK, show(mn), show(mx)), "")
 		return
 	}
@@ -1851,7 +1851,7 @@ func (h *history) afterAggregates(desc string, aggCol, aggCol2 *ColSpec, agg2 ag
 		return
 	}
 	sum, _, mn, mx := nums[k].sumBits(vals)
-	if !valEqual(k, Val{B: agg2.Sum}, Val{B: sum}) || !agg2.MinOK || !agg2.MaxOK || !valEqual(k, Val{B: agg2.Min}, Val{B: mn}) || !valEqual(k, Val{B: agg2.Max}, Val{B: mx}) {
+	if !valEqual(k, Val{B: agg2.Sum}, Val{B: sum, Arith: true}) || !agg2.MinOK || !agg2.MaxOK || !valEqual(k, Val{B: agg2.Min}, Val{B: mn, Arith: true}) || !valEqual(k, Val{B: agg2.Max}, Val{B: mx, Arith: true}) {
 		h.violate("aggregate", fmt.Sprintf("%ssecond aggregate over %s (after %s) on the same transaction: Sum=%s Min=%s Max=%s, the %d selected values give Sum=%s Min=%s Max=%s", desc, aggCol2.Name, aggCol.Name,
 			Val{B: agg2.Sum}.show(k), Val{B: agg2.Min}.show(k), Val{B: agg2.Max}.show(k), len(vals), Val{B: sum}.show(k), Val{B: mn}.show(k), Val{B: mx}.show(k)), "")
 	}
